@@ -35,8 +35,23 @@ type recordingClient struct {
 	bad    []string
 }
 
+// cancelPlan cancels the request context when the after-th service call of
+// one gateway request starts (the client went away / the deadline passed
+// while a hop is in flight).
+type cancelPlan struct {
+	after  int64
+	n      int64
+	cancel context.CancelFunc
+}
+type cancelKey struct{}
+
 func (c *recordingClient) Execute(ctx context.Context, req *federation.QueryRequest) (*federation.QueryResponse, error) {
 	atomic.AddInt64(&c.calls, 1)
+	if p, _ := ctx.Value(cancelKey{}).(*cancelPlan); p != nil {
+		if atomic.AddInt64(&p.n, 1) == p.after {
+			p.cancel()
+		}
+	}
 	if req.Query != nil && req.Query.SelectionSet != nil {
 		if why := validateAgainst(c.schema.Query, req.Query.SelectionSet); why != "" {
 			c.mu.Lock()
@@ -407,6 +422,62 @@ func oneQuery(run *vlib.Run, sd *gen.SchemaDesc, mono *graphql.Schema, p *partit
 			run.Violation(caseIdx, classify("", gotC), wit)
 			return
 		}
+	}
+	if qi%2 == 0 {
+		cancelLeg(run, p, caseIdx, r, ctx, text, vars, wantC, want)
+	}
+}
+
+// cancelLeg runs the query once more with the request context cancelled at a
+// seeded service call: the gateway must fail, or answer completely — never
+// report success with part of the document missing.
+func cancelLeg(run *vlib.Run, p *partition, caseIdx int, r *rand.Rand, base context.Context, text string, vars map[string]interface{}, wantC string, want interface{}) {
+	count := &cancelPlan{after: 1 << 40, cancel: func() {}}
+	q1, err := graphql.Parse(text, vars)
+	if err != nil {
+		return
+	}
+	if _, _, err := p.gateway.Execute(context.WithValue(base, cancelKey{}, count), q1, nil); err != nil {
+		return
+	}
+	calls := atomic.LoadInt64(&count.n)
+	if calls < 1 {
+		return
+	}
+	cctx, cancel := context.WithCancel(base)
+	defer cancel()
+	plan := &cancelPlan{after: 1 + r.Int63n(calls), cancel: cancel}
+	q2, _ := graphql.Parse(text, vars)
+	type gres struct {
+		v   interface{}
+		err error
+	}
+	ch := make(chan gres, 1)
+	go func() {
+		v, _, err := p.gateway.Execute(context.WithValue(cctx, cancelKey{}, plan), q2, nil)
+		ch <- gres{v, err}
+	}()
+	select {
+	case g := <-ch:
+		run.Count("cancel_mid_request_runs", 1)
+		if g.err != nil {
+			run.Count("cancel_mid_request_returned_error", 1)
+			return
+		}
+		gotS := strip(g.v)
+		if vlib.Canon(gotS) == wantC {
+			return
+		}
+		wantS, _ := vlib.ToJSONForm(strip(want))
+		if n := dropInjectedTypename(gotS, wantS); n > 0 && vlib.Canon(gotS) == wantC {
+			return
+		}
+		run.Violation(caseIdx, "", map[string]interface{}{"what": "request context cancelled while a hop was in flight: the gateway reported success with a result that differs from the combined server's (partial document)",
+			"query": text, "variables": vars, "partition": p.describe(), "cancel_at_service_call": plan.after, "service_calls": calls,
+			"got": vlib.Trunc(vlib.Canon(strip(g.v)), 2500), "want": vlib.Trunc(wantC, 2500)})
+	case <-time.After(30 * time.Second):
+		run.Violation(caseIdx, "", map[string]interface{}{"what": "gateway request did not return within 30 s after its context was cancelled mid-request",
+			"query": text, "variables": vars, "partition": p.describe(), "cancel_at_service_call": plan.after, "stacks": vlib.Trunc(strings.Join(vlib.ThunderGoroutines(), "\n\n"), 5000)})
 	}
 }
 
